@@ -53,7 +53,8 @@ def relax_chunk(idx, items):
     try:
         for route, dom, method, ncons in items:
             fixed = route.startswith('fixed-')
-            route = route.replace('fixed-', '')
+            frac = route.startswith('frac-')
+            route = route.replace('fixed-', '').replace('frac-', '')
 
             def model(domain):
                 x = optyx.Variable('x', lb=0, ub=10)
@@ -75,6 +76,10 @@ def relax_chunk(idx, items):
                     for d in ds:
                         d.lb = 1.0 if dom == 'binary' else 2.0
                         d.ub = d.lb
+                if frac:
+                    # declared bounds need not be whole numbers: the relaxation is over exactly the declared box
+                    for d in ds:
+                        d.lb, d.ub = (0.2, 0.8) if dom == 'binary' else (0.5, 2.5)
                 lin = method in ('linprog', 'highs-ds') or method == 'auto-lp'
                 obj = x
                 for i, d in enumerate(ds):
@@ -96,7 +101,7 @@ def relax_chunk(idx, items):
             b = concrete.outcome(lambda: pc.solve(method=m))
             part['evaluations'] += 1
             part['traces_validated_against_impl'] += 2
-            text = '%s %s via %s%s, %s, %d constraint(s)' % (dom, 'variables', 'fixed ' if fixed else '', route, method, ncons)
+            text = '%s %s via %s%s, %s, %d constraint(s)' % (dom, 'variables', 'fixed ' if fixed else 'fractional-bounds ' if frac else '', route, method, ncons)
             part['nontrivial'].add(text)
             st = 'Relax(%s)' % m
             if a[0] == 'raised' or b[0] == 'raised':
@@ -137,7 +142,7 @@ def run(report, tier):
         part['violations'] = keep
         report.merge(part)
     validate_traces(report, batch, 'C18 repeated solves', keep=(('namesOK', 'Warn'),))
-    items = [(r, d, m, n) for r in ('scalar', 'vector', 'slice', 'matrix-row', 'transpose-col', 'sym-diagonal', 'fixed-scalar', 'fixed-vector') for d in ('integer', 'binary')
+    items = [(r, d, m, n) for r in ('scalar', 'vector', 'slice', 'matrix-row', 'transpose-col', 'sym-diagonal', 'fixed-scalar', 'fixed-vector', 'frac-scalar', 'frac-vector') for d in ('integer', 'binary')
              for m in ('auto', 'auto-lp', 'linprog', 'highs-ds', 'SLSQP', 'trust-constr', 'L-BFGS-B', 'TNC', 'COBYLA', 'Nelder-Mead', 'Powell', 'BFGS')
              for n in (0, 1) if not (m in ('L-BFGS-B', 'TNC', 'Nelder-Mead', 'Powell', 'BFGS') and n)]
     batch = []
